@@ -7,8 +7,8 @@ def build():
     ov = vlib.make_overlay('apinode', harness=['main', 'ircserver'])
     return vlib.build_test('.', os.path.join(vlib.BUILD, 'apinode.test'), ov)
 
-def run_seq(prop, tier, test, assumptions, rule, level='model_checking', env=None, extra_cov=None, nshards=None):
-    t0 = time.time()
+def run_seq(prop, tier, test, assumptions, rule, level='model_checking', env=None, extra_cov=None, nshards=None, pre_results=None, t0=None):
+    t0 = t0 or time.time()
     budget = float(os.environ.get('VERIF_BUDGET_S', '120' if tier == 'quick' else '1200'))
     binary = build()
     e = {'VERIF_TIER': tier, 'VERIF_DEADLINE': str(int(t0 + budget)), 'GOMAXPROCS': '2'}
@@ -16,6 +16,7 @@ def run_seq(prop, tier, test, assumptions, rule, level='model_checking', env=Non
     rs = []
     for tname in (test if isinstance(test, (list, tuple)) else [test]):
         rs += vlib.run_workers(binary, tname, nshards or vlib.NCPU, env=e)
+    rs += list(pre_results or [])
     bysig = {}
     herr = [r['harness_error'] for r in rs if r.get('harness_error')]
     for r in rs:
@@ -39,7 +40,7 @@ def run_seq(prop, tier, test, assumptions, rule, level='model_checking', env=Non
         'distinct_end_states': len(end_states),
         'samples': sum([r.get('samples') or [] for r in rs], [])[:6], 'exhaustive': not capped, 'rule': rule,
     }
-    for k in ('retries', 'requests', 'refused', 'accepted'):
+    for k in ('retries', 'requests', 'refused', 'accepted', 'mixed_encoding_schedules'):
         if any(k in r for r in rs): cov[k] = sum(r.get(k, 0) for r in rs)
     if extra_cov: cov.update(extra_cov)
     vlib.finish(prop, tier, level, cov, list(bysig.values()), t0, assumptions=assumptions)
